@@ -222,6 +222,7 @@ def run_session(k):
         S.bind(self._csn)
         try:
             o_run(self)
+            S.point(('thread.exit', self._csn))      # the thread is still alive for a moment after its last operation
             thread_end[self._csn] = 'returned'
         except cs.Deadlock:
             thread_end[self._csn] = 'blocked'
